@@ -98,12 +98,14 @@ var verifAllowLists = [][]string{
 	{"http://cam-*.example.org"},
 	{"*"},
 	{},
+	{"https://*.example.org", "https://*.example.com"},
+	{"https://*.example.net", "https://*.example.org", "https://*.example.com"},
 }
 
 // VerifCORSSymbolicHost: origins whose host has arbitrary characters spliced in around example.org.
 func VerifCORSSymbolicHost() {
 	allow := verifAllowLists[vnd.Choose("allow", len(verifAllowLists))]
-	shapes := vnd.Choose("shape", 4)
+	shapes := vnd.Choose("shape", 5)
 	c1, c2 := verifHostChar("c1"), verifHostChar("c2")
 	var host string
 	switch shapes {
@@ -113,8 +115,10 @@ func VerifCORSSymbolicHost() {
 		host = "example" + string([]byte{c1}) + "org" + string([]byte{c2}) // example?org?
 	case 2:
 		host = string([]byte{c1, c2}) + ".example.org" // ??.example.org
-	default:
+	case 3:
 		host = "cam-" + string([]byte{c1}) + ".example" + string([]byte{c2}) + "org"
+	default:
+		host = string([]byte{c1, c2}) + "example.com" // ??example.com: ends like an allowed domain without being under it
 	}
 	vnd.Assume(host[0] != '.' && host[0] != '-' && host[len(host)-1] != '-')
 	o := verifOrigin{scheme: []string{"http", "https"}[vnd.Choose("scheme", 2)], host: host, port: []string{"", "80", "443", "8080", "8443"}[vnd.Choose("port", 5)]}
